@@ -55,6 +55,11 @@ Check(r, idx) ==
     \* the code under test panicked inside a goroutine the cache started (maintenance): the policy structures are corrupt and,
     \* with the eviction mutex never released, neither the bound nor the notifications are maintained any more
     \o (IF r.libpanic # "" THEN <<F(idx, "C05.abnormal_end", r.libpanic), F(idx, "C04.abnormal_end", r.libpanic), F(idx, "C06.abnormal_end", r.libpanic)>> ELSE <<>>)
+    \* C16, cache level: one producer, one key, same-goroutine executor - its events are replayed in the order it submitted them,
+    \* so the values it overwrote / removed are reported to OnDeletion in the order it wrote them (also across a buffer overflow)
+    \o (IF r.libpanic = "" /\ r.sc.writers = 1 /\ r.sc.keys = 1 /\ r.sc.syncexec = 1 /\ r.sc.invall = 0 /\ r.sc.setmax = <<>>
+           /\ \E a, b \in DOMAIN evD : a < b /\ evD[a].v > evD[b].v /\ evD[a].c \in {"Replacement", "Invalidation"} /\ evD[b].c \in {"Replacement", "Invalidation"}
+        THEN <<F(idx, "C16.producer_order", [j \in DOMAIN evD |-> evD[j].v])>> ELSE <<>>)
     \* C17, cache level: the read buffer has ONE consumer at a time (the holder of the eviction mutex); after the final clean-up
     \* of a quiescent cache every recorded read has been delivered
     \o (IF r.libpanic = "" /\ r.rbuf # 0 THEN <<F(idx, "C17.read_buffer_not_drained", r.rbuf)>> ELSE <<>>)
